@@ -132,7 +132,7 @@ CHECKS = {
              'itself, so the one-state graph closes (thorough replays all sequences <= 2). (b) 3 entry points x '
              'buffer events (overwrite, reverse, extend, clear) per seed of every class, both directions. '
              '(c) construct / mutate-in-place / construct histories for every class with defaulted arguments.'
-             ' (d) observe with every value observer, edit in place (nested field, top-level field, vector event), observe again - answers must equal those of the equal object built by construction; (e) two parses of the same bytes: every in-place edit of one leaves the other unchanged. State equality tolerates private caches (constructor-argument values and library == decide).',
+             ' (d) observe with every value observer, edit in place (nested field, top-level field, vector event), observe again - answers must equal those of the equal object built by construction; every edited state, including those only an in-place edit reaches (one field assigned alone where a constructor would complete or refuse the combination; every member of an empty flag set switched on), is put through the purity check of (a); (e) two parses of the same bytes: every in-place edit of one leaves the other unchanged. State equality tolerates private caches (constructor-argument values and library == decide).',
         design='§5 C13'),
     'C14': dict(
         technique='exhaustive enumeration of objects x process configurations (hash seeds, insertion orders, '
